@@ -3,3 +3,5 @@ import CC.Thm.C10
 #print axioms CC.Thm.C10.enc_dec
 #print axioms CC.Thm.C10.mix_inverse
 #print axioms CC.Thm.C10.source_glue_match
+#print axioms CC.Thm.C10.generated_dec_enc
+#print axioms CC.Thm.C10.generated_enc_dec
